@@ -630,6 +630,101 @@ impl Prop for C19 {
 }
 
 // ------------------------------------------------------------------------------------------------
+// C03: a barrier that follows no registration changes nothing (metamorphic)
+
+pub struct C03Noop {
+    pub cfg: GenCfg,
+}
+
+fn strip_noop_barriers(ops: &[Op]) -> Vec<Op> {
+    // remove barrier ops that are leading or directly repeat an effective barrier (thread-local
+    // registrations do not count as registrations for this purpose)
+    let mut out: Vec<Op> = vec![];
+    let mut since = false;
+    let mut removed_before: Vec<usize> = vec![];
+    let mut removed = 0usize;
+    for op in ops {
+        removed_before.push(removed);
+        match op {
+            Op::Barrier => {
+                if since {
+                    out.push(Op::Barrier);
+                    since = false;
+                } else {
+                    removed += 1;
+                }
+            }
+            Op::Tl { .. } => out.push(op.clone()),
+            Op::Sys { .. } => {
+                since = true;
+                out.push(op.clone());
+            }
+            Op::Batch { inner, .. } => {
+                since = true;
+                let mut o = op.clone();
+                if let Op::Batch { inner: i2, .. } = &mut o {
+                    *i2 = strip_noop_barriers(inner);
+                }
+                out.push(o);
+            }
+        }
+    }
+    // dependency indices refer to positions in the op list: shift them
+    for o in out.iter_mut() {
+        if let Op::Sys { deps, .. } | Op::Batch { deps, .. } = o {
+            for d in deps.iter_mut() {
+                *d -= removed_before[*d];
+            }
+        }
+    }
+    out
+}
+
+impl Prop for C03Noop {
+    type Case = Plan;
+    fn name(&self) -> &'static str {
+        "c03-noop-barrier"
+    }
+    fn property(&self) -> &'static str {
+        "C03"
+    }
+    fn rule(&self) -> &'static str {
+        "plans with many barriers (1/3 of the ops, so leading and repeated ones are common, also inside batch builders); metamorphic oracle: removing every barrier that follows no registration since the previous barrier (or the beginning) yields the identical executed plan at every nesting level; non-trivial = >= 1 such barrier removed and >= 2 stages; distinct = plan hash"
+    }
+    fn gen(&self, src: &mut Src) -> Plan {
+        gen_plan(src, &self.cfg)
+    }
+    fn check(&self, plan: &Plan, lane: usize, st: &mut Stats) -> Result<(), Fail> {
+        let stripped = strip_noop_barriers(plan);
+        let (b1, l1) = layouts_of(plan, lane)?;
+        let (_b2, l2) = layouts_of(&stripped, lane)?;
+        if l1 != l2 {
+            return Err(Fail::new(format!(
+                "removing barriers that follow no registration changed the plan: {} vs {}",
+                oracles::describe(&b1.flat, &l1),
+                oracles::describe(&b1.flat, &l2)
+            )));
+        }
+        fn count_barriers(ops: &[Op]) -> usize {
+            ops.iter()
+                .map(|o| match o {
+                    Op::Barrier => 1,
+                    Op::Batch { inner, .. } => count_barriers(inner),
+                    _ => 0,
+                })
+                .sum()
+        }
+        if count_barriers(plan) > count_barriers(&stripped) && l1.by_bid[&0].stages.len() >= 2 {
+            st.nontrivial(plan, || oracles::describe(&b1.flat, &l1));
+        }
+        Ok(())
+    }
+    fn simplify(&self, case: &Plan) -> Vec<Plan> {
+        simplify_plan(case)
+    }
+}
+
+// ------------------------------------------------------------------------------------------------
 // C19 / C05: the same registration sequences in a second process and without the `parallel` feature
 
 /// replay of one plan through the external comparisons
